@@ -42,11 +42,12 @@ type Run struct {
 	Stats    map[string]int
 	Assume   []string
 	NotDec   []string
+	Extra    map[string]interface{}
 }
 
 func NewRun(P *Prog, prop, tier string) *Run {
 	return &Run{P: P, Prop: prop, Tier: tier, Deep: tier == "thorough", RuleText: map[string]string{},
-		floors: map[string]int{}, counts: map[string]int{}, Stats: map[string]int{}}
+		floors: map[string]int{}, counts: map[string]int{}, Stats: map[string]int{}, Extra: map[string]interface{}{}}
 }
 
 // Rule declares a rule: its text (goes to the evidence) and the number of
@@ -189,6 +190,9 @@ func (r *Run) Finish(verifDir string, start time.Time) int {
 		"assumptions": append([]string{}, r.Assume...),
 		"wall_s":      time.Since(start).Seconds(),
 		"violations":  len(viol),
+	}
+	for k, v := range r.Extra {
+		ev["coverage"].(map[string]interface{})[k] = v
 	}
 	b, _ := json.MarshalIndent(ev, "", " ")
 	if err := os.WriteFile(filepath.Join(evDir, r.Prop+".json"), b, 0o644); err != nil {
